@@ -247,7 +247,7 @@ def run(prog, R):
                'fastq': [('buf_pos', 'pos', '0'), ('buf_pos', 'seq'), ('buf_pos', 'sep'), ('buf_pos', 'qual')]}
     for fmt in ('fasta', 'fastq'):
         for b in reader_bodies(prog, fmt):
-            cons = find_call(b, 'std::io::BufRead::consume')
+            cons = [(x, t) for x, t in find_call(b, 'std::io::BufRead::consume') if not is_discard_all(prog, b, t)]
             if not cons:
                 continue
             du = U.du_of(b)
